@@ -25,7 +25,10 @@ Statements == {
   <<"keep",    Elem(TagKeepAlive, <<>>, <<ChExpr(Ident("k1", FALSE, PVNode("pk")))>>), FALSE>>,
   <<"model",   Elem(TagHtml("input"), <<VModel(Ident("m1", TRUE, S(<<49>>)), "none", "", Undefined, "none", <<>>)>>, <<>>), FALSE>>,
   <<"twocalls", Elem(TagHtml("div"), <<>>, <<ChElem(Elem(TagComp("P", FALSE, Undef), <<>>, <<ChExpr(Call("p1", PVNode("pp1")))>>)),
-                                              ChElem(Elem(TagComp("Q", FALSE, Undef), <<>>, <<ChExpr(Call("q1", PVNode("pq1")))>>))>>), FALSE>>
+                                              ChElem(Elem(TagComp("Q", FALSE, Undef), <<>>, <<ChExpr(Call("q1", PVNode("pq1")))>>))>>), FALSE>>,
+  (* not a JSX element: a typed defineComponent call under resolveType - its augmentation consults what the   *)
+  (* visitor remembers of the user's imports from 'vue' (the element is a placeholder, the site kind is "dc") *)
+  <<"dc",      Elem(TagHtml("div"), <<>>, <<>>), FALSE>>
 }
 
 (* distractors: <<item, elements of its sites in order, writes-a?>> *)
@@ -72,8 +75,10 @@ CaseOf(t, o, composed, i) ==
   LET p == IF composed THEN t[1] ELSE <<>>
       q == IF composed THEN t[3] ELSE <<>>
       ps == ConcatSites(p, 1)  qs == ConcatSites(q, 1)
-      sites == Numbered(ps, 0) \o <<[id |-> "stmt", kind |-> "elem", elem |-> t[2][2]]>> \o Numbered(qs, Len(ps))
-  IN [case |-> "C10-" \o ToString(i) \o (IF composed THEN "#composed" ELSE "#alone"), prop |-> "C10", opts |-> o,
+      dc == t[2][1] = "dc"
+      sites == Numbered(ps, 0) \o <<[id |-> "stmt", kind |-> IF dc THEN "dc" ELSE "elem", elem |-> t[2][2]]>> \o Numbered(qs, Len(ps))
+  IN [case |-> "C10-" \o ToString(i) \o (IF composed THEN "#composed" ELSE "#alone"), prop |-> "C10",
+      opts |-> [o EXCEPT !.resolveType = dc], lang |-> IF dc THEN "tsx" ELSE "jsx",
       module |-> Items(p) \o <<Site("x", "x")>> \o Items(q), sites |-> sites,
       stmt |-> t[2][1], related |-> t[2][3] /\ (WritesA(t[1]) \/ WritesA(t[3]))]
 
